@@ -187,4 +187,27 @@ def run(chk, prop, theorem_files, knob_sets, n_quick, n_thorough, oracle_keys, n
             chk.known_finding(f["id"], f["line"] if "line" in f else f["what_fails"])
     if post:
         found += post(chk, results) or []
+    if (dis or chk.broken) and not found:
+        # failing-input search: a fresh, contention-heavy stream in the envelopes of the property, oracle only
+        from ..gen import Knobs
+        extra = []
+        for env in ("asap", "alap"):
+            kk = Knobs(envelope=env, max_res=2, max_tasks=7, p_team=0.45, p_leave=0.6, p_tasklimits=0.3, p_limits=0.2,
+                       p_dep=0.6, p_gap=0.5, p_container=0.5, sub_slot=0.6, p_alt=0.2, p_wh=0.5, dur_weeks=[2, 3])
+            extra += [gen.gen_project(chk.rng, kk) for _ in range(600 if tier == "quick" else 4000)]
+        res2 = project_stream.run_projects(chk, extra, want_oracles=oracle_keys)
+        chk.cov["search_stream_cases"] = len(extra)
+        for r in res2:
+            obs = r["obs"]
+            if obs is None or "error" in obs:
+                continue
+            for key, msgs in r["oracle"].items():
+                for msg in msgs:
+                    kind, fid = ("new", None)
+                    if classify:
+                        scid = msg[1:msg.index("]")]
+                        sc = next(s for s in obs["scenarios"] if s["id"] == scid)
+                        kind, fid = classify(r["ast"], sc, key, msg)
+                    if kind != "known":
+                        found.append((f"{key}: {msg}", {"stream": "project-search", "ast": r["ast"], "text": r["text"], "oracle": msg}))
     return conclude(chk, dis, lambda: found)
